@@ -356,3 +356,27 @@ CHECKS["C14"] = {
         {"variant": "asan", "engine": "serial", "procs_quick": 2, "procs_thorough": 4, "rounds_quick": 2, "rounds_thorough": 20},
     ],
 }
+
+CHECKS["C20"] = {
+    "src": "C20.cpp",
+    "level": "fault_enumeration",
+    "rule": "17 scenarios, one per user-code call site family (lr_guarded::modify functor; ordered_guarded modify/read functors, void and "
+            "value-returning; Cell assignment / copy inside guarded store, =, load; copy, assignment and == inside atomic_guarded store, exchange, "
+            "compare_exchange on both paths; the deep copy in cow_guarded::lock; deferred_guarded functors on the direct and on the queued path; "
+            "SearchableObjectHolder predicates in find / find+type / remove; DelayedDestructor callbacks). A fault-free dry run counts the "
+            "invocations K of the scenario's sites; then for every k = 1..K the k-th invocation throws (throw-point space enumerated completely), "
+            "sequentially under ASan+UBSan and with a concurrent partner thread under the serial and stress engines. Oracles: no shim mutex held "
+            "by the thrower after unwinding nor at quiescence, exception propagated / captured in the future / swallowed as documented, a further "
+            "blocking acquisition by the same and by the partner thread completes, lr_guarded all-or-nothing (throw in 1st application: value "
+            "unchanged, in 2nd: completed) with both copies equal, objects unchanged by aborted calls, DelayedDestructor elements still destroyed "
+            "exactly once. Non-trivial: an exception was actually injected in the round; distinct = (scenario, k, schedule signature).",
+    "assumptions": ["a throw from Cell assignment inside lr_guarded's own roll-back/roll-forward handler (double fault) is documented as indeterminate and not injected",
+                    "the wrapped type's assignment throws before modifying its target (strong guarantee of the payload)"],
+    "exhaustive_note": "throw points 1..K of every scenario (K measured by a dry run, listed in samples) are all injected",
+    "runs": [
+        {"variant": "asan", "engine": "off", "mode": "seq", "procs": 1, "rounds": 1},
+        {"variant": "plain", "engine": "serial", "mode": "conc", "procs_quick": 6, "procs_thorough": 12, "rounds_quick": 25, "rounds_thorough": 600},
+        {"variant": "asan", "engine": "stress", "mode": "conc", "procs_quick": 3, "procs_thorough": 6, "rounds_quick": 8, "rounds_thorough": 200},
+        {"variant": "asan", "engine": "serial", "mode": "conc", "procs_quick": 2, "procs_thorough": 4, "rounds_quick": 8, "rounds_thorough": 200},
+    ],
+}
